@@ -177,13 +177,10 @@ example : infer env (str% "gunzip -c x.wav.gz |") = .ok (str% "kaldi") := by dec
 example : infer env (str% "x.wav.npy") = .ok (str% "npy") ∧ infer env (str% "x.npy.wav") = .ok (str% "wav")
     ∧ infer env (str% ".npz") = .ok (str% "npz") ∧ infer env (str% "a.b/c.pt") = .ok (str% "pt") := by decide
 
-/-- the soundfile test stands before the `.wav` test in the source … -/
-theorem sf_before_wav :
-    config.rules.idxOf .lastSegInSf < config.rules.idxOf (.endsWith (str% ".wav") (str% "wav")) := by decide
-
-/-- … which is unobservable: a name ending in `.wav` is typed `wav` whether or not soundfile handles wav
-(both rules answer `wav`), and `wav` is dispatched to the scipy / `wave` reader in either case
-(`force_as_reader` below). -/
+/-- The soundfile test stands before the `.wav` test in the source.  That precedence is unobservable: a name
+ending in `.wav` is typed `wav` whether or not soundfile handles wav (both rules answer `wav`), and `wav` is
+dispatched to the scipy / `wave` reader in either case (`force_as_reader` below).  (The proof does not depend
+on the order of the two rules, so swapping them in the source changes nothing here.) -/
 theorem wav_precedence_irrelevant (e : Env) (stem : Str)
     (h0 : tableMatch e.word (stem ++ (str% ".wav")) = false) :
     infer e (stem ++ (str% ".wav")) = .ok (str% "wav") := (suffix_maps_to_kind e stem).1 h0
